@@ -46,6 +46,7 @@ INVARIANTS = ('Partition ResiduesWhole MolConnected MolMaximal InputMolsNeverFus
 TAB_CFG = 'SPECIFICATION Spec\n' + ''.join('INVARIANT %s\n' % i for i in INVARIANTS)
 TBL_CFG = 'INIT TblInit\nNEXT Next\n'
 TRACE_CFG = 'SPECIFICATION Spec\n'
+JVM_SHORT = '-XX:TieredStopAtLevel=1 -XX:ParallelGCThreads=2'
 EMPTY = {'Els': '{}', 'XPairs': '{}', 'Fudges': '{}', 'NameTriples': '{}', 'ResnameTriples': '{}', 'MolTriples': '{}',
          'ResidTriples': '{}', 'OldChoices': '{}', 'Modes': '{}', 'SweepEls': '{}', 'SweepFudges': '{}'}
 ALL_ELS = '{"H","D","He","C","N","O","F","Ne","Si","P","S","Cl","Ar","As","Se","Br","Kr","Te","I","Xe","X"}'
@@ -791,8 +792,12 @@ class Gen:
         again on that (second event, family history-2nd)"""
         out = self.f_random(rng)
         out['family'] = 'history'
-        out['history'] = {'remove': rng.choice([0, 0, 1, 2, 3]), 'name': rng.random() < 0.7, 'dist': rng.random() < 0.8,
-                          'fu': list(rng.choice(FUDGES + FUDGES_LT1[:2]))}
+        if rng.random() < 0.5:      # the same options again, nothing removed: is the second run a no-op?
+            s = out['sys']
+            out['history'] = {'remove': 0, 'name': s['name'], 'dist': s['dist'], 'fu': [s['fn'], s['fd']], 'same': True}
+        else:
+            out['history'] = {'remove': rng.choice([0, 1, 2, 3]), 'name': rng.random() < 0.7, 'dist': rng.random() < 0.8,
+                              'fu': list(rng.choice(FUDGES + FUDGES_LT1[:2])), 'same': False}
         return out
 
     def f_modes_off(self, rng):
@@ -852,7 +857,9 @@ def _judge(shard, timeout=3000):
         ev = [{'sys': c['sys'], 'got': {k: c['got'][k] for k in ('err', 'mols', 'edges', 'inorder')}, 'focus': c['focus']}
               for c in shard]
         tf = tlc.write_json(work, 'trace.json', ev)
-        res = tlc.run('Trace_Bonds', TRACE_CFG, dump=True, env={'TRACE_FILE': tf}, workdir=work, workers=1, timeout=timeout)
+        # short single-worker runs: the client compiler and two collector threads cost less than half the CPU (measured)
+        res = tlc.run('Trace_Bonds', TRACE_CFG, dump=True, env={'TRACE_FILE': tf, 'JAVA_TOOL_OPTIONS': JVM_SHORT}, workdir=work,
+                      workers=1, timeout=timeout)
         if res.violated:
             raise tlc.MachineryError('Trace_Bonds violated %s' % res.violated)
         verdicts = {st['tid']: (st['verdict'], st['info']) for st in res.states() if st['verdict'] != 'pending'}
@@ -884,7 +891,7 @@ def make_cases(fams, rng, gen):
             if s2['atoms'] and gen.near_free(s2):
                 got2 = apply_makebonds(system, s2, list(range(1, len(s2['atoms']) + 1)), rng)
                 out.append({'sys': s2, 'focus': {'a': 0, 'b': 0}, 'family': 'history-2nd', 'target': None, 'comp': [], 'scope': 'edges',
-                            'got': got2, 'removed': hist['remove'], 'nbonds_in': len(s2['old'])})
+                            'got': got2, 'removed': hist['remove'], 'nbonds_in': len(s2['old']), 'same': hist['same']})
     return out
 
 
@@ -897,7 +904,8 @@ def _trace_chunk(args):
     dist, gen_, wall, verdicts = _judge(batch)
     out = {'states': dist, 'transitions': gen_, 'wall': wall, 'n': len(batch), 'stats': {}, 'sole_pairs': {}, 'sens_count': {},
            'skipped': 0, 'traces': 0, 'nontrivial': set(), 'rejected': [], 'sample': None,
-           'history': {'second_runs': 0, 'with_removed_atoms': 0, 'added_bonds': 0, 'input_bonds': 0}}
+           'history': {'second_runs': 0, 'with_removed_atoms': 0, 'added_bonds': 0, 'input_bonds': 0,
+                       'same_options_again': 0, 'same_options_again_adding_a_bond': 0}}
     for i, c in enumerate(batch, 1):
         if i not in verdicts:
             raise tlc.MachineryError('no verdict for trace %d of a shard' % i)
@@ -935,6 +943,8 @@ def _trace_chunk(args):
             h['with_removed_atoms'] += c['removed'] > 0
             h['added_bonds'] += info['nbond']
             h['input_bonds'] += c['nbonds_in']
+            h['same_options_again'] += c['same']
+            h['same_options_again_adding_a_bond'] += c['same'] and info['nbond'] > 0
         if len(sens - SHAPE) >= 1:
             out['nontrivial'].add(hashlib.sha1(json.dumps(common.jsonable(c['sys']), sort_keys=True).encode()).hexdigest()[:16])
         if v != 'ok':
@@ -1038,6 +1048,11 @@ def _real_summary(parts, ev, vd):
             tot['merged_by_bond'] += info['nmol'] < info['ninmol']
             tot['split_input_molecule'] += info['nmol'] > info['ninmol']
             tot['second_runs'] += r['step'] > 0
+            if r['step'] > 0 and case.get('history') == ['run', 'run']:
+                tot.setdefault('same_options_again', 0)
+                tot.setdefault('same_options_again_adding_a_bond', 0)
+                tot['same_options_again'] += 1
+                tot['same_options_again_adding_a_bond'] += info['nnew'] > 0
             tot['runs_after_removal'] += any(h.startswith('remove') for h in case.get('history', []))
             tot['gro_runs'] += case.get('fmt') == 'gro'
             tot['name_only'] += case['name'] and not case['dist'] and r['step'] == 0
@@ -1098,7 +1113,7 @@ def run(tier, seed, ev, vd):
         # big structures first, one case per task (a task = real runs + one TLC process)
         weight = {'1mj5': 50, '2qwo': 40, '6lfo': 20, 'lysozyme': 12}
         cases.sort(key=lambda c: -weight.get(c['src'], 1) * len(c.get('history', [1])))
-        per_task = 1 if quick else 2
+        per_task = 2
         real_tasks = [cases[i:i + per_task] for i in range(0, len(cases), per_task)]
         real_async = [pool.apply_async(c10_real.worker, ((chunk, R),)) for chunk in real_tasks]
         per = 12 if quick else 450
